@@ -42,6 +42,11 @@ func (w *fpWalker) walk(v reflect.Value, depth int) {
 		w.emit("CAP")
 		return
 	}
+	if pp := v.Type().PkgPath(); pp == "sync" || pp == "sync/atomic" {
+		// locks, once, atomics: their state changes while they do their job
+		w.emit("sync:" + v.Type().String())
+		return
+	}
 	switch v.Kind() {
 	case reflect.Ptr:
 		if v.IsNil() {
@@ -242,4 +247,18 @@ func (a FP) Diff(b FP) []string {
 		}
 	}
 	return d
+}
+
+// zeroGlobals returns the package-level variables that hold the zero value of their type now.
+func zeroGlobals() map[string]bool {
+	z := map[string]bool{}
+	for p, vars := range rt.Globals() {
+		for n, ptr := range vars {
+			v := reflect.ValueOf(ptr)
+			if v.Kind() == reflect.Ptr && !v.IsNil() && v.Elem().IsZero() {
+				z[p+"."+n] = true
+			}
+		}
+	}
+	return z
 }
